@@ -51,7 +51,7 @@ func verif_harness_C16_http_targeter_bytes() {
 	verif_reach("done")
 }
 
-//verif:harness param.L=0..3 thorough.param.L=0..4 unwind=48 thorough.deadline=1500
+//verif:harness param.L=0..3 thorough.param.L=0..3 unwind=48 thorough.deadline=1500
 func verif_harness_C16_json_targeter_bytes() {
 	src := verifASCII("doc", verif_param("L"))
 	verif_alloc_limit(verifC16Budget + 64*len(src))
@@ -70,7 +70,7 @@ func verif_harness_C16_json_targeter_bytes() {
 	verif_reach("done")
 }
 
-//verif:harness param.L=0..3 thorough.param.L=0..4 unwind=48 thorough.deadline=1500
+//verif:harness param.L=0..3 thorough.param.L=0..3 unwind=48 thorough.deadline=1500
 func verif_harness_C16_json_decoder_bytes() {
 	src := verifASCII("doc", verif_param("L"))
 	verif_alloc_limit(verifC16Budget + 64*len(src))
